@@ -141,6 +141,24 @@ pub fn gen_single(rng: &mut Rng) -> Case {
     c
 }
 
+/// A state read whose laid-out result (2 words per value plus the values) lands exactly at / one past the memory limit.
+pub fn exact_fill_state(rng: &mut Rng, delta: i64) -> Case {
+    let mut c = Case { family: "limits", ..Default::default() };
+    let seq = |n: usize| -> Vec<Word> { (0..n).map(|i| i as Word).collect() };
+    let (n, l) = *rng.pick(&[(2048i64, 3usize), (1024, 8), (5120, 0), (2, 5118)]);
+    let total = n * (2 + l as i64);               // = 10240
+    c.memory = seq(10240);
+    c.pre_mode = ViewMode::Uniform(l); c.post_mode = ViewMode::Uniform(l);
+    let op = rng.pick(&[KRNG, PKRNG, KREX, PKREX]).clone();
+    let mut ops = vec![];
+    if matches!(op, Op::StateRead(asm::StateRead::KeyRangeExtern) | Op::StateRead(asm::StateRead::PostKeyRangeExtern)) { for w in [1, 2, 3, 4] { ops.push(push(w)); } }
+    // count n + delta at address 0, or count n at address max(delta, 0)
+    if rng.chance(1, 2) { ops.extend([push(7), push(1), push(n + delta), push(0)]); } else { ops.extend([push(7), push(1), push(n), push(delta.max(0) + (10240 - total))]); }
+    ops.push(op);
+    c.ops = ops; c.limit = 100;
+    c
+}
+
 // ---------------------------------------------------------------- family: every growing op at its size limit
 /// Each op that can grow the stack, the memory or the repeat stack, from a state in which the result lands one
 /// below, exactly at, or one above the documented limit.
@@ -148,7 +166,8 @@ pub fn gen_limits(rng: &mut Rng) -> Case {
     let mut c = Case { family: "limits", ..Default::default() };
     let delta = rng.range(-1, 1);                      // result size relative to the limit
     let seq = |n: usize| -> Vec<Word> { (0..n).map(|i| i as Word).collect() };
-    match rng.below(14) {
+    match rng.below(15) {
+        14 => { return exact_fill_state(rng, delta); }
         13 => { // Compute nesting: one level is the limit, whatever the memories hold
             let mut ops = vec![];
             if rng.chance(1, 2) { ops.extend([push(rng.range(1, 3)), ALOC, POP]); }
@@ -340,6 +359,8 @@ pub fn gen_compute(rng: &mut Rng) -> Case {
         }
         9 => { // even children leave an open Repeat frame behind (they jump out of their loop); odd children ask for the
                // repeat counter outside any loop of their own: every child must start from the parent's state alone
+            // (usually inside a loop of the parent, so that the odd children have a counter to read: the parent's)
+            if rng.chance(3, 4) { c.ops.splice(0..0, [push(5), push(1), REP]); }
             c.ops.extend([push(2), MOD, push(13), SWAP, JMPIF,
                           push(3), push(rng.range(0, 1)), REP, push(1), ALOC, POP, push(3), push(1), JMPIF, REPE, COME, COME,
                           REPC, push(1), ALOC, POP, push(0), STO]);
@@ -368,6 +389,7 @@ pub fn gen_compute(rng: &mut Rng) -> Case {
 // ---------------------------------------------------------------- family: state reads
 pub fn gen_state(rng: &mut Rng) -> Case {
     let (sols, ix) = some_solutions(rng);
+    if rng.chance(1, 20) { let d = rng.range(-1, 1); let mut c = exact_fill_state(rng, d); c.family = "state"; return c; }
     let mut c = Case { family: "state", sols, index: ix, view_seed: rng.next(), ..Default::default() };
     c.pre_mode = *rng.pick(&[ViewMode::Exact, ViewMode::Exact, ViewMode::Exact, ViewMode::Fewer, ViewMode::More, ViewMode::Empty, ViewMode::Fail]);
     c.post_mode = *rng.pick(&[ViewMode::Exact, ViewMode::Exact, ViewMode::Fewer, ViewMode::More, ViewMode::Fail]);
@@ -606,5 +628,11 @@ pub fn corpus() -> Vec<Case> {
     for op in [ADD, SUB, MUL, DIV, MOD] { for (x, y) in PAIRS { v.push(Case { family: "single", stack: vec![*x, *y], ops: vec![op.clone()], ..Default::default() }); } }
     // shifts by amounts that alias an in-range amount under a truncating cast
     for op in [SHL, SHR, SHRI] { for k in [64i64, 65, 1 << 8, (1 << 8) + 3, 1 << 16, 1 << 32, (1 << 32) + 3, (3 << 32) + 63, i64::MIN, i64::MIN + 5, -1] { v.push(Case { family: "single", stack: vec![-0x1234_5678, k], ops: vec![op.clone()], ..Default::default() }); } }
+    // the repeat stack limit again, with the last (or every) loop counting down
+    for (n, last_dir, dir) in [(4096usize, 0i64, 1i64), (4095, 0, 1), (4096, 1, 0), (4096, 0, 0), (4095, 0, 0)] {
+        let mut ops = vec![]; for _ in 0..n { ops.extend([push(2), push(dir), REP]); }
+        ops.extend([push(2), push(last_dir), REP]);
+        v.push(Case { family: "limits", ops, limit: 20_000, ..Default::default() });
+    }
     v
 }
